@@ -155,6 +155,11 @@ def run(ctx):
             pmiss = [p for p in ref.get("prefixes", []) if tuple(p) not in [tuple(x) for x in Fp]]
             ctx.check(not missing and not pmiss, "C19.spellings", f"C19.spellings:{short}", where,
                       bad_msg=f"spellings changed or dropped: {dict(list(missing.items())[:5])} {pmiss}")
+            # ... and no further string is swallowed by a dedicated variant: a value the enum does not know must come back unchanged (from _Custom)
+            extra = {k: v for k, v in now.items() if k not in ref["literals"]}
+            ctx.check(not extra, "C19.spellings", f"C19.spellings:{short}:extra", where,
+                      bad_msg=f"strings that are neither a specified spelling nor a declared alias are mapped to dedicated variants: {dict(list(extra.items())[:4])} "
+                              f"(converting them to the enum and back gives another string)")
         else:
             ctx.ok("C19.spellings", f"C19.spellings:{short}:new", where, "enum not in the frozen table (new enum)", nontrivial=False)
     ctx.count("string_enums_checked", n_done)
